@@ -7,5 +7,6 @@ export CARGO_NET_OFFLINE=true
 python3 -c "
 from rules import facts as F
 F.ensure_facts('trusted', verbose=True)
+F.ensure_fixture_facts()
 "
 echo setup-ok
